@@ -363,6 +363,26 @@ func checkConsecutiveSlices(p *core.Program, r *core.Report, fn *ssa.Function, t
 			}
 		}
 		r.Check(okHi, "R12.2b", name, "token length is the index byte (high = low + int(index[j]))", pos, "high bound is "+core.Describe(sl.High))
+		// every entry of the index is consumed: the token loop is left only through its own
+		// test or by returning an error
+		for b := range l.Blocks {
+			if b == l.Header {
+				continue
+			}
+			for _, sb := range b.Succs {
+				if l.Blocks[sb] {
+					continue
+				}
+				okExit := false
+				for _, in2 := range sb.Instrs {
+					if ret, isRet := in2.(*ssa.Return); isRet && len(ret.Results) == 2 && !core.IsNilConst(ret.Results[1]) {
+						okExit = true
+					}
+				}
+				r.Check(okExit, "R12.2b", name, "the token loop ends only when the index is used up or with an error", p.InstrPos(b.Instrs[len(b.Instrs)-1]),
+					"an early exit leaves index entries unconsumed: the returned tokens do not have the character counts the index specifies")
+			}
+		}
 	})
 	r.Floor("R12.2b", "token slices taken in loops", nSl, 3)
 }
